@@ -84,8 +84,10 @@ FDown(front, seen) ==                             \* what a reader reaches in th
          IN FDown(nxt, seen \cup nxt)
 FReach == FDown({Root}, {Root})
 
+\* a slot stands for one uid: it is not given a new uid while the second workspace still holds a copy made under the old one
 FreeE(s) == /\ ~Live(s) /\ reg[s] = "none" /\ ~fnode[s].on /\ s \notin held
             /\ \A l \in flink : l[1] # s /\ l[2] # s
+            /\ ~w2[W2(s, 0)].on /\ ~w2[W2(s, 1)].on
 FreeSet(K) == {s \in K : FreeE(s)}
 FreeP == {p \in PS : pg[p].owner = -1 /\ fpg[p].owner = -1}
 Rank(x, S) == Cardinality({y \in S : y < x})
@@ -171,12 +173,37 @@ CreateDeferred(p, n) ==
 \* ObjectBase.add_default_visual_parameters (object_base.py:605-628): a text data child named "Visual Parameters";
 \* value token 3 stands for its XML text.  It is never renamed, re-valued or put in a property group by the model.
 VP == "Visual Parameters"
+CM == "UserComments"
+FL == "file.dat"
+Special(n) == n \in {VP, CM, FL}     \* data children with a fixed name and non-array content
 AddVisual(o) ==
     /\ Do("AddVisual") /\ Writable /\ o \in Att \cap OS /\ o \notin dirty /\ FreeSet(DS) # {}
     /\ \A d \in kids[o] : mem[d].name # VP
     /\ LET s == Lowest(FreeSet(DS)) IN
          /\ Birth(s, o, VP, 3)
          /\ Ok("AddVisual", [s |-> s, p |-> o], {s, o})
+    /\ UNCHANGED <<pg, fpg, held, mode, dirty, saved, w2, w2pg>>
+
+\* add_comment (groups/base.py:79-105, object_base.py:94-121): the first comment creates a CommentsData child named
+\* "UserComments", later comments are appended to it.  add_file (entity_container.py:52-92): a FilenameData child.
+AddComment(e) ==
+    /\ Do("AddComment") /\ Writable /\ e \in Att \cap (GS \cup OS) /\ e \notin dirty
+    /\ IF \E d \in kids[e] : mem[d].name = CM
+       THEN /\ Ok("AddComment", [p |-> e, s |-> (CHOOSE d \in kids[e] : mem[d].name = CM), first |-> FALSE],
+                  {CHOOSE d \in kids[e] : mem[d].name = CM})
+            /\ UNCHANGED <<mem, kids, pg, reg, fnode, flink, fpg, held, mode, Aux>>
+       ELSE /\ FreeSet(DS) # {}
+            /\ LET s == Lowest(FreeSet(DS)) IN
+                 /\ Birth(s, e, CM, 3)
+                 /\ Ok("AddComment", [p |-> e, s |-> s, first |-> TRUE], {s, e})
+            /\ UNCHANGED <<pg, fpg, held, mode, dirty, saved, w2, w2pg>>
+
+AddFile(e) ==
+    /\ Do("AddFile") /\ Writable /\ e \in Att \cap (GS \cup OS) /\ e \notin dirty /\ FreeSet(DS) # {}
+    /\ \A d \in kids[e] : mem[d].name # FL
+    /\ LET s == Lowest(FreeSet(DS)) IN
+         /\ Birth(s, e, FL, 3)
+         /\ Ok("AddFile", [p |-> e, s |-> s], {s, e})
     /\ UNCHANGED <<pg, fpg, held, mode, dirty, saved, w2, w2pg>>
 
 \* explicit identifier (C06): refused when the uid is in use by any live entity of any kind
@@ -195,7 +222,7 @@ CreateWithUid(u, p, n) ==
 \* Entity.name / allow_delete setters -> Workspace.update_attribute -> H5Writer.update_field
 \* (entity.py:77-100,251-260; workspace.py:1359-1389)
 Rename(s, n) ==
-    /\ Do("Rename") /\ Writable /\ s \in Att \cap ES /\ mem[s].name # n /\ s \notin dirty /\ mem[s].name # VP
+    /\ Do("Rename") /\ Writable /\ s \in Att \cap ES /\ mem[s].name # n /\ s \notin dirty /\ ~Special(mem[s].name)
     /\ mem' = [mem EXCEPT ![s].name = n]
     /\ fnode' = [fnode EXCEPT ![s].name = n]
     /\ fopt' = [fopt EXCEPT ![s] = TRUE]      \* H5Writer.write_attributes rewrites every scalar attribute (h5_writer.py:303-361)
@@ -211,7 +238,7 @@ SetFlag(s, b) ==                                   \* allow_delete
     /\ UNCHANGED <<kids, pg, reg, flink, fpg, held, mode, dirty, saved, w2, w2pg>>
 
 SetVal(d, v) ==                                    \* Data.values setter (data/data.py, numeric_data.py)
-    /\ Do("SetVal") /\ Writable /\ d \in Att \cap DS /\ mem[d].val # v /\ d \notin dirty /\ mem[d].name # VP
+    /\ Do("SetVal") /\ Writable /\ d \in Att \cap DS /\ mem[d].val # v /\ d \notin dirty /\ ~Special(mem[d].name)
     /\ mem' = [mem EXCEPT ![d].val = v]
     /\ fnode' = [fnode EXCEPT ![d].val = v]
     /\ Ok("SetVal", [s |-> d, v |-> v], {d})
@@ -232,7 +259,7 @@ SetMeta(s, v) ==
 Move(s, p) ==
     /\ Do("Move") /\ Writable /\ s \in Att \cap ES /\ Sub(s) \cap dirty = {}
     /\ p \in Att /\ p # mem[s].par /\ p \notin Sub(s) /\ p \notin dirty
-    /\ IF s \in DS THEN p \in OS /\ mem[s].name # VP ELSE p \in {Root} \cup GS
+    /\ IF s \in DS THEN p \in OS /\ ~Special(mem[s].name) ELSE p \in {Root} \cup GS
     /\ LET old == mem[s].par IN
          /\ mem' = [mem EXCEPT ![s].par = p]
          /\ kids' = [kids EXCEPT ![p] = @ \cup {s}, ![old] = @ \ {s}]
@@ -278,7 +305,7 @@ StripOpt(s) ==
 \* (object_base.py:182-231, property_group.py:76-98)
 PGsOf(o) == {p \in PS : pg[p].owner = o}
 AddToGroup(o, d, n) ==
-    /\ Do("AddToGroup") /\ Writable /\ o \in Att \cap OS /\ d \in kids[o] /\ d \notin dirty /\ mem[d].name # VP
+    /\ Do("AddToGroup") /\ Writable /\ o \in Att \cap OS /\ d \in kids[o] /\ d \notin dirty /\ ~Special(mem[d].name)
     /\ LET same == {p \in PGsOf(o) : pg[p].name = n} IN
        IF same # {}
        THEN LET p == Lowest(same) IN
@@ -296,7 +323,7 @@ AddToGroup(o, d, n) ==
 \* a property group requested with an identifier that is in use - by a property group of the same or of another
 \* object, or by an entity of any kind - is refused without side effects (C06; property_group.py __init__)
 PGWithUid(o, d, n, u) ==
-    /\ Do("PGWithUid") /\ Writable /\ o \in Att \cap OS /\ d \in kids[o] /\ d \notin dirty /\ mem[d].name # VP
+    /\ Do("PGWithUid") /\ Writable /\ o \in Att \cap OS /\ d \in kids[o] /\ d \notin dirty /\ ~Special(mem[d].name)
     /\ \A p \in PGsOf(o) : pg[p].name # n
     /\ \/ (u \in PS /\ pg[u].owner \in Att)
        \/ (u \in ES /\ u \in Att)
@@ -418,7 +445,7 @@ RemovePG(p) ==                                     \* ws.remove_entity(property_
 \* every copied child and every property group; property groups reference the copied children.
 Copy(s, p, deep) ==
     /\ Do("Copy") /\ Writable /\ s \in Att \cap ES /\ p \in Att /\ Sub(s) \cap dirty = {}
-    /\ IF s \in DS THEN p \in OS /\ deep /\ mem[s].name # VP ELSE p \in {Root} \cup GS
+    /\ IF s \in DS THEN p \in OS /\ deep /\ ~Special(mem[s].name) ELSE p \in {Root} \cup GS
     /\ p \notin Sub(s) /\ p \notin dirty
     /\ LET S == IF deep THEN Sub(s) ELSE {s}
            SP == IF deep THEN {q \in PS : pg[q].owner \in S} ELSE {}
@@ -588,6 +615,7 @@ Next ==
     \/ \E p \in Cont, n \in Names : CreateGroup(p, n) \/ CreateObject(p, n)
     \/ \E o \in OS, n \in Names, v \in Vals : AddData(o, n, v)
     \/ \E o \in OS : AddVisual(o)
+    \/ \E e \in GS \cup OS : AddComment(e) \/ AddFile(e)
     \/ \E u \in GS \cup OS, p \in Cont, n \in Names : CreateWithUid(u, p, n)
     \/ \E s \in ES, n \in Names : Rename(s, n)
     \/ \E s \in ES, b \in BOOLEAN : SetFlag(s, b)
